@@ -10,6 +10,7 @@ import (
 	"strings"
 
 	"github.com/foxboron/go-uefi/authenticode"
+	"github.com/foxboron/go-uefi/pkcs7"
 
 	"verif/internal/keys"
 	"verif/internal/mon"
@@ -177,12 +178,47 @@ func checkC03(r *mon.Run) {
 				if hashBefore == nil {
 					hashBefore = bin.Hash(crypto.SHA256)
 				}
-				if _, err := bin.Sign(cs.Key.Priv, cs.Cert); err != nil {
+				// detached flow (one step in three): the signature is made over the image digest
+				// elsewhere and attached with AppendSignature; the object is looked at before
+				// (Bytes, Open, Signatures, Hash), which must not influence what it emits afterwards
+				detached := rng.Intn(3) == 0
+				if detached {
+					shape[len(shape)-1] += "/detached"
+					preBytes := bin.Bytes()
+					var preOpen bytes.Buffer
+					preOpen.ReadFrom(bin.Open())
+					bin.Signatures()
+					if !bytes.Equal(preBytes, preOpen.Bytes()) {
+						fail("bytes-differs-from-open", fmt.Sprintf("step %d: Bytes() and the stream of Open() differ before signing", s))
+						return
+					}
+					spc, err := authenticode.CreateSpcIndirectDataContent(bin.Hash(crypto.SHA256), crypto.SHA256)
+					if err != nil {
+						fail("sign-failed", fmt.Sprintf("step %d: CreateSpcIndirectDataContent failed: %v", s, err))
+						return
+					}
+					sig, err := pkcs7.SignPKCS7(cs.Key.Priv, cs.Cert, authenticode.OIDSpcIndirectDataContent, spc)
+					if err != nil {
+						fail("sign-failed", fmt.Sprintf("step %d: SignPKCS7 failed: %v", s, err))
+						return
+					}
+					if err := bin.AppendSignature(sig); err != nil {
+						fail("sign-failed", fmt.Sprintf("step %d: AppendSignature failed: %v", s, err))
+						return
+					}
+					r.Count("detached_steps", 1)
+				} else if _, err := bin.Sign(cs.Key.Priv, cs.Cert); err != nil {
 					fail("sign-failed", fmt.Sprintf("step %d: Sign failed: %v", s, err))
 					return
 				}
 				signedBy = append(signedBy, cs)
 				out := bin.Bytes()
+				var viaOpen bytes.Buffer
+				viaOpen.ReadFrom(bin.Open())
+				if !bytes.Equal(out, viaOpen.Bytes()) {
+					fail("bytes-differs-from-open", fmt.Sprintf("step %d: Bytes() returns %d bytes, the stream of Open() %d bytes", s, len(out), viaOpen.Len()))
+					return
+				}
 				r.Eval(1)
 				if k, msg := c03CheckOutput(cur, out, preSigs+len(signedBy)); k != "" {
 					if k == "harness" {
